@@ -135,3 +135,31 @@ _ADD4 = {
 }
 for _k, _v in _ADD4.items():
     TEXT[_k]["level_text"] += _v
+
+# additions after the fifth round (DESIGN.md 8.6)
+_W32 = " The public drivers are also built for GOARCH=386 and run natively (w32 parts): int, uint and big.Word have 32 bits there."
+_ADD5 = {
+ "C01": _W32 + " A witness nonce with x1 within 2^224 of 2^256 is signed with digests around 2n-x1 and the largest digests, and the signature verified.",
+ "C02": _W32 + " Every nonce stream also through a reader whose answers come from another goroutine while the caller's stack is moved.",
+ "C03": _W32,
+ "C04": _W32 + " Part sm3-single-huge: messages of 2^28..2^29+9 bytes in one call (one-shot, one Write, two Writes). The caller overwrites its buffer after every Write.",
+ "C05": _W32,
+ "C06": _W32 + " Lifetime scenarios (sibling AEAD / Block / other key's objects collected, finalizers awaited) and an asm-entry-state part (backward liveness over every amd64 routine: nothing is read before it is written).",
+ "C07": _W32 + " Lifetime scenarios; part open-huge: authentic message followed by 2^32 zero bytes, additional data of 2^32+5 zero bytes (exact oracle); asm-entry-state part.",
+ "C08": " Compiler-generated memory comparisons (== on arrays, strings, structs) are hooked like external callees and judged by their operands; an address returned by an assembly routine is an index event.",
+ "C10": _W32 + " Layouts with the output over the received tag (Open) and with the nonce inside the output region.",
+ "C11": " Every Open also on a forged message under the same placements (canaries behind the output area); a stack-sweep part calls every operation at every call depth 0..1500 of fresh goroutines under GODEBUG=efence=1.",
+ "C12": _W32 + " GenerateKey also through the served reader (answers from another goroutine while the caller's stack moves).",
+ "C13": _W32 + " Ids of 2^28..3*2^28 bytes must be refused; w32: messages of 2^28 bytes in one piece.",
+ "C14": _W32 + " Scalars n+j for |j| <= 320 (thorough 4096) and n+2t for every single window value t.",
+ "C15": _W32,
+ "C16": _W32,
+ "C17": " Parts stack-sweep (see C11) and asm-entry-state (see C06).",
+ "C18": " Tables filled on first use are read after a workload; points built from table entries are computed on in place before the constants are checked.",
+ "C19": _W32 + " Failures behind the accepted candidate (a call that consults the source again must report them); every short script also through the served reader.",
+ "C20": _W32,
+}
+for _k, _v in _ADD5.items():
+    TEXT[_k]["level_text"] += _v
+ENGINES.append({"name": "asmlivein", "path": "/verif/tools/asmlivein.py", "serves_properties": ["C06", "C07", "C17"],
+                "kind_free_text": "backward liveness fixpoint over the control-flow graph of every amd64 assembly routine (go tool asm -S listing): registers read before written on some path from the entry"})
